@@ -46,6 +46,12 @@ def witness_sources():
                                           'union Option {\n    Some { value: int },\n    None { }\n}\n'),
         'opaque-arg-type-unchecked': main('    let v: int = (hnd true)\n    (println v)', 'opaque type Handle\nfn hnd(h: Handle) -> int {\n    return 1\n}\nshadow hnd { assert true }\n'),
         'anon-struct-literal-arg': main('    let v: int = (f1 { x: 1, y: 2 })\n    (println v)', 'struct Point {\n    x: int,\n    y: int\n}\n' + F1),
+        # reviewer's program: a string literal for an int parameter inside println -- the same diagnostic site as call-arg-type-unchecked,
+        # here the VM then stops with a run-time type error and cc refuses the C text
+        'call-arg-type-unchecked:string-for-int': main('    (println (f1 "a"))'),
+        # a user function named like the builtin `exit`: diagnostic printed, then the type checker dereferences NULL (SIGSEGV in all tools)
+        'redefine-builtin-exit-crash': 'fn exit(v: int) -> int {\n    return (+ v 1)\n}\nshadow exit { assert (== (exit 1) 2) }\n'
+                                       'fn main() -> int {\n    (println (exit 2))\n    return 0\n}\nshadow main { assert true }\n',
     }
 
 
